@@ -10,7 +10,7 @@ RULE = ('C14 histories on charts whose handlers also defer the current event and
         'Every sixth case runs 2-3 threads that recall at the same time (fewer recalls than deferred events) under detsched: each of the '
         'oldest events must be returned and queued exactly once. distinct_nontrivial = distinct (host, defers, recalls, recalls-on-empty, steps) tuples with >= 1 defer or recall')
 CASES = {'quick': 4000, 'thorough': 250000}
-BUDGET = {'quick': 40, 'thorough': 300}
+BUDGET = {'quick': 150, 'thorough': 300}
 REQUIRE = {'defers': 1000, 'recalls': 1000, 'recalls_on_empty': 100, 'overlapping_recall_runs': 300}
 ASSUME = ['queue capacity (500) is not reached']
 
